@@ -10,4 +10,27 @@ package rpc
 // isProtectedMethodName returns true - RegisterName then deletes it unless the transport opted in.
 //@ func isProtectedMethodName
 //@   protects[C18] signs via API.Service
+//@   axiom result == protname(name)
 //@   nopanic[C18]
+
+// RegisterName, in the default environment (no transport opted in), never leaves a callback with a
+// protected name in the service registered under `name` - neither when the service is new nor
+// when its methods are merged into a service registered earlier under the same name (provided
+// that service was clean before).
+//@ macro cleancbs(cbs) = forall q string :: has(cbs, q) && cbs[q] != nil ==> !protname(cbs[q].method.Name)
+// Trusted: suitableCallbacks builds two new maps (reflection over the receiver's method set) and
+// writes nothing else a contract mentions.
+//@ func suitableCallbacks
+//@   trusted
+//@   ensures fresh(result0) && fresh(result1) && result0 != result1
+//@   assigns nothing
+//@ func formatName
+//@   opaque
+//@ func Server.RegisterName
+//@   requires s != nil && !allow_sign_ipc && !allow_sign_inProc && !allow_sign_http && !allow_sign_ws
+//@   requires s.services != nil && has(s.services, name) ==> s.services[name] != nil && cleancbs(s.services[name].callbacks) && s.services[name].callbacks != s.services[name].subscriptions
+//@   ensures[C18] @locked err == nil && has(s.services, name) && s.services[name] != nil ==> cleancbs(s.services[name].callbacks)
+//@   loop 1 invariant[C18] (has(s.services, name) ==> s.services[name] != nil && cleancbs(s.services[name].callbacks)) && fresh(methods)
+//@   loop 1 invariant[C18] !is_allowed && (forall q string :: $seen(q) && has(methods, q) && methods[q] != nil ==> !protname(methods[q].method.Name))
+//@   loop 4 invariant[C18] regsvc != nil && cleancbs(regsvc.callbacks) && regsvc.callbacks != regsvc.subscriptions
+//@   loop 3 invariant[C18] regsvc.callbacks != regsvc.subscriptions && regsvc != nil && cleancbs(regsvc.callbacks) && (forall q string :: has(methods, q) && methods[q] != nil ==> !protname(methods[q].method.Name))
